@@ -187,6 +187,8 @@ class Contract:
         self.replay_fn = None             # fn(model_env: dict) -> replay dict
         self.search_fn = None             # bounded search for a concrete failing input: fn() -> replay dict | None
         self.no_raise = False             # ensures: the function never raises
+        self.z3_timeout_ms = None         # per-contract z3 budget (string-heavy contracts hand over to cvc5 early)
+        self.cvc5_on_unknown = False      # re-discharge z3's unknowns with cvc5 --strings-exp in every tier
         self.allowed_raises: Optional[set] = None
         self.post_facts = None            # fn(V0) -> ground instances of spec definitions (base cases) assumed at the post-state
 
@@ -457,7 +459,7 @@ def verify(contract: Contract, tier="quick", callee_contracts=None) -> list[OR]:
         seen[oid] = seen.get(oid, 0) + 1
         if seen[oid] > 1:
             oid = f"{oid}#{seen[oid]}"
-        r, s, dt = _check(vc.hyps, vc.goal)
+        r, s, dt = _check(vc.hyps, vc.goal, timeout_ms=contract.z3_timeout_ms or TIMEOUT_MS)
         o = OR(id=oid, status=UNKNOWN, kind="A", target=target, desc=vc.desc, role=vc.role, seconds=dt, backend="z3")
         o.smt = s.sexpr() if len(results) % 7 == 0 else ""
         if r == z3.unsat:
@@ -512,7 +514,7 @@ def verify(contract: Contract, tier="quick", callee_contracts=None) -> list[OR]:
             # hypotheses); a model of the rest is only a *candidate*, reported if a real failing input is found
             ground = [h for h in vc.hyps if not _has_quant(h)]
             if len(ground) < len(vc.hyps) or True:
-                r2, s2, dt2 = _check(ground, vc.goal, timeout_ms=min(TIMEOUT_MS, 20000))
+                r2, s2, dt2 = _check(ground, vc.goal, timeout_ms=min(contract.z3_timeout_ms or TIMEOUT_MS, 20000))
                 if r2 == z3.sat and contract.search_fn is not None:
                     try:
                         hit = contract.search_fn()
@@ -521,10 +523,16 @@ def verify(contract: Contract, tier="quick", callee_contracts=None) -> list[OR]:
                     if hit:
                         o.status, o.replay, o.witness = REFUTED, hit, hit.get("input")
                         o.detail = "candidate model (quantifier-free hypotheses) confirmed by bounded search on the real code"
-            if o.status == UNKNOWN and tier == "thorough":
-                res = _cvc5_check(s.sexpr())
+            if o.status == UNKNOWN and (tier == "thorough" or contract.cvc5_on_unknown):
+                t5 = time.time()
+                fresh = z3.Solver()          # a solver that has run carries (model-del ..) lines in its dump
+                for h in vc.hyps:
+                    fresh.add(h)
+                fresh.add(z3.Not(vc.goal))
+                res = _cvc5_check(fresh.sexpr())
                 if res == "unsat":
-                    o.status, o.backend = PROVED, "cvc5"
+                    o.status, o.backend, o.detail = PROVED, "cvc5", o.detail + "; re-discharged by cvc5 --strings-exp"
+                    o.seconds += time.time() - t5
         results.append(o)
     # vacuity guard: for every ensures conjunct some return path satisfies hyps & goal
     posts = [vc for vc in vcs if vc.id.startswith("post.")]
